@@ -1,4 +1,4 @@
 """all translators, in one place (used by setup and by update_baseline)"""
-from . import lru_steps, sandbox
+from . import lru_steps, sandbox, undefined_table
 
-ALL = [lru_steps.gen, sandbox.gen]
+ALL = [lru_steps.gen, sandbox.gen, undefined_table.gen]
